@@ -52,7 +52,43 @@ pub fn program_json(prog: &vm::Program) -> Value {
         "io": io_json(prog.iochannels),
         "dsp_index": prog.dsp_index,
         "type_table_len": prog.type_table.len(),
+        "type_table": prog.type_table.iter().map(|t| type_json(*t, 0)).collect::<Vec<_>>(),
     })
+}
+
+/// Structure of a type as the VM sees it through `TypeNodeId::to_type` (used by CloneUserSum / ReleaseUserSum);
+/// recursion through `type rec` goes through `TypeAlias(name)`, which is a leaf here, so the tree is finite.
+fn type_json(ty: mimium_lang::interner::TypeNodeId, depth: usize) -> Value {
+    use mimium_lang::types::{PType, Type};
+    if depth > 24 {
+        return json!({"k": "TooDeep"});
+    }
+    let ws = ty.word_size();
+    let mut v = match ty.to_type() {
+        Type::Primitive(p) => json!({"k": "Primitive", "p": match p {
+            PType::Unit => "Unit", PType::Int => "Int", PType::Numeric => "Numeric", PType::String => "String" }}),
+        Type::Array(t) => json!({"k": "Array", "c": [type_json(t, depth + 1)]}),
+        Type::Tuple(ts) => json!({"k": "Tuple", "c": ts.iter().map(|t| type_json(*t, depth + 1)).collect::<Vec<_>>()}),
+        Type::Record(fs) => json!({"k": "Record",
+            "keys": fs.iter().map(|f| f.key.as_str().to_string()).collect::<Vec<_>>(),
+            "defaults": fs.iter().map(|f| f.has_default).collect::<Vec<_>>(),
+            "c": fs.iter().map(|f| type_json(f.ty, depth + 1)).collect::<Vec<_>>()}),
+        Type::Function { arg, ret } => json!({"k": "Function", "c": [type_json(arg, depth + 1), type_json(ret, depth + 1)]}),
+        Type::Ref(t) => json!({"k": "Ref", "c": [type_json(t, depth + 1)]}),
+        Type::Code(t) => json!({"k": "Code", "c": [type_json(t, depth + 1)]}),
+        Type::Union(ts) => json!({"k": "Union", "c": ts.iter().map(|t| type_json(*t, depth + 1)).collect::<Vec<_>>()}),
+        Type::UserSum { name, variants } => json!({"k": "UserSum", "name": name.as_str(),
+            "variants": variants.iter().map(|(n, p)| json!({"name": n.as_str(), "payload": p.map(|t| type_json(t, depth + 1))})).collect::<Vec<_>>()}),
+        Type::Boxed(t) => json!({"k": "Boxed", "c": [type_json(t, depth + 1)]}),
+        Type::TypeAlias(n) => json!({"k": "TypeAlias", "name": n.as_str()}),
+        Type::Any => json!({"k": "Any"}),
+        Type::Failure => json!({"k": "Failure"}),
+        Type::Unknown => json!({"k": "Unknown"}),
+        Type::Intermediate(_) => json!({"k": "Intermediate"}),
+        Type::TypeScheme(_) => json!({"k": "TypeScheme"}),
+    };
+    v["word_size"] = json!(ws);
+    v
 }
 
 /// Flatten `Result<Result<T, errors>, panic>` into the common {ok, errors, panic} header.
